@@ -210,6 +210,7 @@ func c12NewEnv() *c12Env {
 }
 
 func c12One(tier string, _ *c12Env, seq []*wire.Rpc, syms []int, res *core.Result, desc func() string) bool {
+	goat.VerifResetTracking()
 	env := c12NewEnv() // a fresh server per sequence: late handlers of an earlier sequence cannot disturb the counts
 	l := wire.NewLink(4, false)
 	ctx, cancel := context.WithCancel(context.Background())
@@ -371,6 +372,13 @@ func c12Run(tier string, seed int64, idx int) *core.Result {
 	c := c12List(tier)[idx]
 	r := rng(seed, idx, "c12")
 	res := &core.Result{Verdict: core.Held, Sample: c}
+	// one P is ~7x faster for these tiny scenarios (no cross-P wakeups); every 8th batch
+	// runs on 4 Ps for schedule diversity
+	if idx%8 == 7 {
+		setGMP(4)
+	} else {
+		setGMP(1)
+	}
 	h := bed.NewHooks()
 	h.Install()
 	var env *c12Env
